@@ -1,4 +1,6 @@
 import FloVerif.Driver.C05
+import FloVerif.Driver.C01
+import FloVerif.Driver.C13
 import FloVerif.Driver.C06
 import FloVerif.Driver.C04
 import FloVerif.Driver.C18
@@ -12,8 +14,11 @@ open Driver
 def dispatch (prop op stream : String) (ins outs : List String) : List C05.Out :=
   match prop with
   | "C05" => C05.handle op stream ins outs
+  | "C13" => C13.handle op ins outs
   | "C06" => C06.handle op stream ins outs
   | "C04" => C04.handle op stream ins outs
+  | "C01" | "C11" | "C12" => (C01.handle op ins outs).map fun o =>
+      { field := o.field, cmp := if o.ok then .same 0 else .diff o.msg, fbit := none }
   | "C17" => (C17.handle op ins outs).map fun o =>
       { field := o.field, cmp := if o.ok then .same 0 else .diff o.msg, fbit := none }
   | "C18" => (C18.handle op ins outs).map fun o =>
